@@ -7,6 +7,7 @@ From SU Require Import F32 F32Lemmas.
 From SU.Model Require Import PhaseAcc Lfo.
 From SU.Proofs Require Import LfoProofs.
 From SU.Proofs Require Import SharedProofs.
+From SU.Proofs Require Import LfoKillers.
 Open Scope R_scope.
 
 Theorem C11_reset_zero : forall l, pa_acc (lfo_step l LReset) = 0%Z.
@@ -129,6 +130,66 @@ Theorem C11_pa_index_range : forall TOT IDX p, 0 <= IDX <= TOT -> 0 <= pa_acc p 
 Proof. exact pa_index_range. Qed.
 Close Scope Z_scope.
 
+(** reset positions the phase only: frequency and sample rate are kept *)
+Open Scope Z_scope.
+Theorem C11_reset_keeps : forall l,
+  pa_acc (lfo_step l LReset) = 0 /\
+  pa_inc (lfo_step l LReset) = pa_inc l /\
+  pa_fs (lfo_step l LReset) = pa_fs l.
+Proof. exact lfo_reset_keeps. Qed.
+Close Scope Z_scope.
+
+(** set_phase positions the phase only *)
+Open Scope Z_scope.
+Theorem C11_set_phase_keeps : forall l p,
+  pa_inc (lfo_step l (LSetPhase p)) = pa_inc l /\
+  pa_fs (lfo_step l (LSetPhase p)) = pa_fs l.
+Proof. exact lfo_set_phase_keeps. Qed.
+Close Scope Z_scope.
+
+(** the requested frequency stays in force until the next set_frequency *)
+Open Scope Z_scope.
+Theorem C11_frequency_persists : forall ops l, Forall not_set_freq ops ->
+  pa_inc (fold_left lfo_step ops l) = pa_inc l /\
+  pa_fs (fold_left lfo_step ops l) = pa_fs l.
+Proof. exact lfo_frequency_persists. Qed.
+Close Scope Z_scope.
+
+(** a new LFO: phase 0, frequency 0 *)
+Open Scope Z_scope.
+Theorem C11_new_spec : forall fs,
+  pa_acc (lfo_new fs) = 0 /\ pa_last (lfo_new fs) = 0 /\ pa_inc (lfo_new fs) = 0 /\
+  pa_rolled (lfo_new fs) = false /\ pa_fs (lfo_new fs) = fs.
+Proof. exact lfo_new_spec. Qed.
+Close Scope Z_scope.
+
+(** histories are applied oldest first *)
+Open Scope Z_scope.
+Theorem C11_run_snoc : forall fs ops o,
+  lfo_run fs (ops ++ [o]) = lfo_step (lfo_run fs ops) o.
+Proof. exact lfo_run_snoc. Qed.
+Close Scope Z_scope.
+
+(** the tick guard is exactly the u32 addition *)
+Open Scope Z_scope.
+Theorem C11_tick_ok_iff : forall l,
+  lfo_step_ok l LTick = true <-> pa_acc l + pa_inc l <= 4294967295.
+Proof. exact lfo_tick_ok_iff. Qed.
+Close Scope Z_scope.
+
+(** nothing else has a guard *)
+Open Scope Z_scope.
+Theorem C11_other_ops_ok : forall l o, o <> LTick -> lfo_step_ok l o = true.
+Proof. exact lfo_other_ops_ok. Qed.
+Close Scope Z_scope.
+
+(** set_phase goes through reset (rollover bookkeeping cleared) *)
+Open Scope Z_scope.
+Theorem C11_pa_set_phase_resets : forall TOT p ph,
+  pa_last (pa_set_phase TOT p ph) = 0 /\ pa_rolled (pa_set_phase TOT p ph) = false.
+Proof. exact pa_set_phase_resets. Qed.
+Close Scope Z_scope.
+
 Print Assumptions C11_reset_zero.
 Print Assumptions C11_set_phase.
 Print Assumptions C11_set_phase_nonfinite.
@@ -145,3 +206,11 @@ Print Assumptions C11_pa_ramp_index_fraction.
 Print Assumptions C11_pa_ramp_exact.
 Print Assumptions C11_pa_fraction_exact.
 Print Assumptions C11_pa_index_range.
+Print Assumptions C11_reset_keeps.
+Print Assumptions C11_set_phase_keeps.
+Print Assumptions C11_frequency_persists.
+Print Assumptions C11_new_spec.
+Print Assumptions C11_run_snoc.
+Print Assumptions C11_tick_ok_iff.
+Print Assumptions C11_other_ops_ok.
+Print Assumptions C11_pa_set_phase_resets.
